@@ -405,6 +405,22 @@ func (p *Prog) origins(v ssa.Value, opt OriginOpts) []ssa.Value {
 					return
 				}
 				// a parameter spilled for address-taking: `new T (param)` handled above via stores
+				// a field of a struct that lives in a local variable and is only used through its fields
+				// (`o := walker{keys: m.MapKeys()}; sort.Slice(o.keys, …)`): what was stored into that field
+				if fa, ok := x.X.(*ssa.FieldAddr); ok {
+					if al, ok := fa.X.(*ssa.Alloc); ok && localStructOnly(al) {
+						vals, unknown := localFieldValues(al, fa.Field, x, 0)
+						if len(vals) > 0 {
+							for _, sv := range vals {
+								walk(sv, depth)
+							}
+							if unknown {
+								out = append(out, v)
+							}
+							return
+						}
+					}
+				}
 			}
 			out = append(out, v)
 		case *ssa.Index:
@@ -965,4 +981,383 @@ func eqOnEdge(cond ssa.Value, want bool) *ssa.BinOp {
 		return b
 	}
 	return nil
+}
+
+// ---------- membership in a constant table ----------
+
+// memberOf recognises a test `x ∈ {constants}` written against a table: slices.Contains(table, x) or
+// slices.Index(table, x) ≥ 0 with a table backed by a literal of string constants (local or package
+// level), or a lookup in a package-level map with constant keys. It returns the subject and the set;
+// the returned polarity tells whether cond being true means "is a member".
+func memberOf(cond ssa.Value) (subject ssa.Value, set []string, memberWhenTrue bool, ok bool) {
+	switch x := cond.(type) {
+	case *ssa.Call:
+		n := calleeName(&x.Call)
+		if (strings.HasPrefix(n, "slices.Contains[") || n == "slices.Contains") && len(x.Call.Args) == 2 {
+			if tbl, ok := backingConsts(x.Call.Args[0], 0); ok {
+				return x.Call.Args[1], tbl, true, true
+			}
+		}
+	case *ssa.BinOp:
+		// slices.Index(table, x) >= 0 / != -1 / < 0 …
+		if cl, isCall := x.X.(*ssa.Call); isCall {
+			n := calleeName(&cl.Call)
+			if (strings.HasPrefix(n, "slices.Index[") || n == "slices.Index") && len(cl.Call.Args) == 2 {
+				if tbl, ok := backingConsts(cl.Call.Args[0], 0); ok {
+					if k, isK := constInt(x.Y); isK {
+						switch {
+						case x.Op == token.GEQ && k == 0, x.Op == token.GTR && k == -1, x.Op == token.NEQ && k == -1:
+							return cl.Call.Args[1], tbl, true, true
+						case x.Op == token.LSS && k == 0, x.Op == token.EQL && k == -1:
+							return cl.Call.Args[1], tbl, false, true
+						}
+					}
+				}
+			}
+		}
+	case *ssa.Extract:
+		// _, ok := table[x] on a package-level map with constant keys
+		if lk, isLk := x.Tuple.(*ssa.Lookup); isLk && x.Index == 1 {
+			if keys, ok := mapKeyConsts(lk.X); ok {
+				return lk.Index, keys, true, true
+			}
+		}
+	case *ssa.Lookup:
+		// table[x] on a map[string]bool
+		if !x.CommaOk {
+			if b, isB := x.Type().Underlying().(*types.Basic); isB && b.Kind() == types.Bool {
+				if keys, ok := mapKeyConsts(x.X); ok {
+					return x.Index, keys, true, true
+				}
+			}
+		}
+	}
+	return nil, nil, false, false
+}
+
+// mapKeyConsts: the string-constant keys of a package-level map built by a literal in the initialiser.
+func mapKeyConsts(m ssa.Value) ([]string, bool) {
+	ld, ok := m.(*ssa.UnOp)
+	if !ok || ld.Op != token.MUL {
+		return nil, false
+	}
+	g, ok := ld.X.(*ssa.Global)
+	if !ok {
+		return nil, false
+	}
+	init := g.Pkg.Func("init")
+	if init == nil {
+		return nil, false
+	}
+	var mk ssa.Value
+	n := 0
+	eachInstr(init, func(in ssa.Instruction) {
+		if st, ok := in.(*ssa.Store); ok && st.Addr == ssa.Value(g) {
+			mk = st.Val
+			n++
+		}
+	})
+	if n != 1 || mk == nil {
+		return nil, false
+	}
+	var keys []string
+	okAll := true
+	eachInstr(init, func(in ssa.Instruction) {
+		if mu, ok := in.(*ssa.MapUpdate); ok && mu.Map == mk {
+			if k, ok := constString(mu.Key); ok {
+				keys = append(keys, k)
+			} else {
+				okAll = false
+			}
+		}
+	})
+	return keys, okAll && len(keys) > 0
+}
+
+// inSetOnEdge normalises "x is / is not one of these constants" as implied by taking a branch: equality
+// or inequality with a string constant, or a membership test against a constant table (memberOf).
+// member tells whether the edge implies x ∈ set (true) or x ∉ set (false).
+func inSetOnEdge(cond ssa.Value, want bool) (x ssa.Value, set []string, member bool, ok bool) {
+	c, flip := stripNot(cond)
+	if flip {
+		want = !want
+	}
+	if b, isB := c.(*ssa.BinOp); isB && (b.Op == token.EQL || b.Op == token.NEQ) {
+		if k, isK := constString(b.Y); isK {
+			return b.X, []string{k}, (b.Op == token.EQL) == want, true
+		}
+		if k, isK := constString(b.X); isK {
+			return b.Y, []string{k}, (b.Op == token.EQL) == want, true
+		}
+	}
+	if subj, set, whenTrue, isM := memberOf(c); isM {
+		return subj, set, whenTrue == want, true
+	}
+	return nil, nil, false, false
+}
+
+// ---------- facts that hold on every feasible path ----------
+
+// condKey gives structurally equal pure expressions the same key (a small value numbering): two
+// `len(next) == 0` computed at different places are the same condition.
+func condKey(v ssa.Value, depth int) string {
+	if v == nil {
+		return "nil"
+	}
+	if depth > 6 {
+		return fmt.Sprintf("%p", v)
+	}
+	switch x := v.(type) {
+	case *ssa.Const:
+		if x.Value == nil {
+			return "c:nil"
+		}
+		return "c:" + x.Value.ExactString()
+	case *ssa.BinOp:
+		return "(" + x.Op.String() + " " + condKey(x.X, depth+1) + " " + condKey(x.Y, depth+1) + ")"
+	case *ssa.Convert:
+		return condKey(x.X, depth+1)
+	case *ssa.ChangeType:
+		return condKey(x.X, depth+1)
+	case *ssa.Call:
+		n := calleeName(&x.Call)
+		switch {
+		case n == "builtin.len", n == "builtin.cap", strings.HasPrefix(n, "strings.Has"), n == "strings.Contains", n == "strings.TrimSpace", n == "strings.Index":
+			k := "call:" + n + "("
+			for _, a := range x.Call.Args {
+				k += condKey(a, depth+1) + ","
+			}
+			return k + ")"
+		}
+	case *ssa.UnOp:
+		if x.Op == token.MUL {
+			if cell := cellOf(x.X); cell != nil {
+				// a local that is assigned exactly once holds one value
+				if sts := storesToCell(cell); len(sts) == 1 {
+					return condKey(sts[0].Val, depth+1)
+				}
+			}
+		}
+	}
+	return fmt.Sprintf("%p", v)
+}
+
+// PathFact is a branch condition with the polarity it has on the paths considered.
+type PathFact struct {
+	Cond ssa.Value
+	Want bool
+}
+
+// pathFacts returns the branch facts that hold on every feasible path to target within one iteration
+// of its innermost loop (from the loop header) or from the function entry. A path is infeasible when it
+// takes two edges that contradict each other on structurally equal conditions. ok is false when there
+// are too many paths to enumerate.
+func pathFacts(target *ssa.BasicBlock) (facts []PathFact, ok bool) {
+	fn := target.Parent()
+	start := fn.Blocks[0]
+	if h := loopHeaderOf(target); h != nil && h != target {
+		start = h
+	}
+	type fact struct {
+		cond ssa.Value
+		want bool
+	}
+	var common map[string]fact
+	paths := 0
+	tooMany := false
+	var cur []fact
+	curKeys := map[string]bool{} // key+polarity → present
+	onPath := map[*ssa.BasicBlock]bool{}
+	var dfs func(b *ssa.BasicBlock)
+	dfs = func(b *ssa.BasicBlock) {
+		if tooMany {
+			return
+		}
+		if b == target {
+			paths++
+			if paths > 4000 {
+				tooMany = true
+				return
+			}
+			set := map[string]fact{}
+			for _, f := range cur {
+				k := condKey(f.cond, 0)
+				if f.want {
+					k = "+" + k
+				} else {
+					k = "-" + k
+				}
+				set[k] = f
+			}
+			if common == nil {
+				common = set
+			} else {
+				for k := range common {
+					if _, has := set[k]; !has {
+						delete(common, k)
+					}
+				}
+			}
+			return
+		}
+		if onPath[b] {
+			return
+		}
+		onPath[b] = true
+		defer func() { onPath[b] = false }()
+		ifi, isIf := b.Instrs[len(b.Instrs)-1].(*ssa.If)
+		for k, s := range b.Succs {
+			if s.Dominates(b) && s != target {
+				continue // a back edge: the next iteration
+			}
+			if isIf && b.Succs[0] != b.Succs[1] {
+				cnd, flip := stripNot(ifi.Cond)
+				want := (k == 0) != flip
+				key := condKey(cnd, 0)
+				pos, neg := "+"+key, "-"+key
+				mine, other := pos, neg
+				if !want {
+					mine, other = neg, pos
+				}
+				if curKeys[other] {
+					continue // contradicts an earlier edge of this path
+				}
+				had := curKeys[mine]
+				curKeys[mine] = true
+				cur = append(cur, fact{cnd, want})
+				dfs(s)
+				cur = cur[:len(cur)-1]
+				if !had {
+					delete(curKeys, mine)
+				}
+				continue
+			}
+			dfs(s)
+		}
+	}
+	dfs(start)
+	if tooMany || common == nil {
+		return nil, false
+	}
+	var keys []string
+	for k := range common {
+		keys = append(keys, k)
+	}
+	sort.Strings(keys)
+	for _, k := range keys {
+		facts = append(facts, PathFact{common[k].cond, common[k].want})
+	}
+	return facts, true
+}
+
+// localStructOnly: the allocation is a struct variable of its function that is only ever accessed field by
+// field or copied as a whole (never passed by address), so its fields behave like local variables.
+func localStructOnly(al *ssa.Alloc) bool {
+	pt, ok := al.Type().Underlying().(*types.Pointer)
+	if !ok {
+		return false
+	}
+	if _, ok := pt.Elem().Underlying().(*types.Struct); !ok {
+		return false
+	}
+	refs := al.Referrers()
+	if refs == nil {
+		return false
+	}
+	for _, u := range *refs {
+		switch x := u.(type) {
+		case *ssa.FieldAddr:
+			// the field's address must itself only be loaded from / stored to
+			for _, uu := range *x.Referrers() {
+				switch y := uu.(type) {
+				case *ssa.Store:
+					if y.Addr != ssa.Value(x) {
+						return false
+					}
+				case *ssa.UnOp:
+					if y.Op != token.MUL {
+						return false
+					}
+				default:
+					return false
+				}
+			}
+		case *ssa.UnOp:
+			if x.Op != token.MUL {
+				return false
+			}
+		case *ssa.Store:
+			if x.Addr != ssa.Value(al) {
+				return false
+			}
+		case *ssa.DebugRef:
+		default:
+			return false
+		}
+	}
+	return true
+}
+
+// localFieldValues: the values a field of a local struct variable may hold when it is read at `at`:
+// what was stored into the field before, and — when the struct was assigned as a whole from another
+// local struct (`order := walker{…}` is built in a temporary and copied) — that struct's field.
+// unknown reports that the struct was also assigned as a whole from something that is not followed.
+func localFieldValues(al *ssa.Alloc, field int, at ssa.Instruction, depth int) (vals []ssa.Value, unknown bool) {
+	if depth > 3 {
+		return nil, true
+	}
+	for _, u := range *al.Referrers() {
+		switch x := u.(type) {
+		case *ssa.FieldAddr:
+			if x.Field != field {
+				continue
+			}
+			for _, uu := range *x.Referrers() {
+				if st, ok := uu.(*ssa.Store); ok && st.Addr == ssa.Value(x) && (at.Parent() != st.Parent() || canFollow(st, at)) {
+					vals = append(vals, st.Val)
+				}
+			}
+		case *ssa.Store:
+			if x.Addr != ssa.Value(al) {
+				continue
+			}
+			if ld, ok := x.Val.(*ssa.UnOp); ok && ld.Op == token.MUL {
+				if src, ok := ld.X.(*ssa.Alloc); ok && src != al && localStructOnly(src) {
+					v2, u2 := localFieldValues(src, field, ld, depth+1)
+					vals = append(vals, v2...)
+					if u2 || len(v2) == 0 {
+						unknown = true
+					}
+					continue
+				}
+			}
+			unknown = true
+		}
+	}
+	return vals, unknown
+}
+
+// relationConstRight is relationOnEdge with a constant operand moved to the right-hand side
+// (`0 < n` becomes `n > 0`).
+func relationConstRight(cond ssa.Value, branch bool) (op token.Token, x, y ssa.Value, ok bool) {
+	op, x, y, ok = relationOnEdge(cond, branch)
+	if !ok {
+		return
+	}
+	_, xc := x.(*ssa.Const)
+	_, yc := y.(*ssa.Const)
+	if xc && !yc {
+		x, y = y, x
+		switch op {
+		case token.LSS:
+			op = token.GTR
+		case token.LEQ:
+			op = token.GEQ
+		case token.GTR:
+			op = token.LSS
+		case token.GEQ:
+			op = token.LEQ
+		}
+	}
+	return
 }
